@@ -15,6 +15,7 @@ from lint import facts, ir, effects, records, cfg as cfgmod
 from rules import flow_rules
 from rules.c01 import tk_short
 from rules.c03 import GUARDS
+from lint import anchors
 
 LEVEL = 'other'
 
@@ -38,8 +39,13 @@ def history_writers(run, F, E):
         if fn.kind == 'ctor' and fn.tkey == 'ffsm2::detail::CoreT':
             continue
         if hit:
-            run.ob('C11.a', '%s is an expected writer of previousTransition' % fn.short, tk_short(fn) in ALLOWED_WRITERS, where=fn.pat,
-                   key='%s writes previousTransition' % fn.short)
+            ok = tk_short(fn) in ALLOWED_WRITERS
+            why = 'is an expected writer of previousTransition'
+            if not ok and anchors.is_internal_helper(F, fn):
+                # a non-public helper reached only (transitively, through helpers) from the expected writers
+                ok = not anchors.reached_only_from(F, E, fn, ALLOWED_WRITERS) and bool(E.callers().get(fn.id))
+                why = 'is a non-public helper reached only from the expected writers of previousTransition'
+            run.ob('C11.a', '%s %s' % (fn.short, why), ok, where=fn.pat, key='%s writes previousTransition' % fn.short)
 
 
 def replay_shape(run, F, E):
